@@ -3,13 +3,13 @@
 # For each: apply to /repo, run, revert.  Prints one line per change: CAUGHT (concrete) / NO-INPUT / MISSED.
 cd /verif
 for d in seeded/*/; do
-  n=$(basename $d); p=${n%%-*}
+  n=$(basename $d); p=${n%%-*}; [ -f ${d}check_with ] && p=$(cat ${d}check_with)
   git -C /repo diff --quiet || { echo "/repo dirty"; exit 2; }
   git -C /repo apply /verif/${d}patch.diff || { echo "$n: patch does not apply"; continue; }
-  out=$(VERIF_SEED=${VERIF_SEED:-0} ./check $p quick 2>&1)
+  out=$(VERIF_EVIDENCE_DIR=/root/work/trial_evidence VERIF_SEED=${VERIF_SEED:-0} ./check $p quick 2>&1)   # evidence of a patched tree never goes to /verif/evidence
   git -C /repo checkout -- .
-  if echo "$out" | grep -q "^VIOLATION.*no-failing-input-found"; then r=NO-INPUT
-  elif echo "$out" | grep -q "^VIOLATION"; then r=CAUGHT
+  if echo "$out" | grep "^VIOLATION" | grep -qv "no-failing-input-found"; then r=CAUGHT
+  elif echo "$out" | grep -q "^VIOLATION"; then r=NO-INPUT
   else r=MISSED; fi
   echo "$r $n $(echo "$out" | tail -1 | sed 's/.*evaluations/evaluations/')"
 done
